@@ -627,6 +627,20 @@ class SamplingMethod(DirectMethod):
         f_args = f.mx_in()[:len(args_v)]
         return Function(name, f_args, f.call(list(f_args) + [vcat(local_init)],True,False), *margs)
 
+    def grid_gist(self, stage, expr, grid, include_first=True, include_last=True, transpose=False, refine=1):
+        """Coefficients of (a linear expression of) a B-spline signal, at the Greville points of its basis"""
+        assert refine==1
+        arg = vvcat(self.signals.keys())
+        expr = MX(expr)
+        if arg.numel()==0 or not ca.depends_on(expr, arg) or not ca.is_linear(expr, arg):
+            raise Exception("grid='gist' is available for B-spline signals (grid='bspline') only with this method.")
+        J, b = ca.Function('Jf',[],ca.linear_coeff(expr,arg)).call([],False,False)
+        assert J.sparsity().is_selection(True)
+        deps = ca.sum1(J.sparsity()).T.row()
+        s = self.signals[arg[deps]]
+        G = get_greville_points(self.xi, s.degree)
+        return self.t0+G*self.T, (J[:,deps] @ s.coeff)+b
+
     def set_initial_all(self, stage, master, initial_guesses):
         """Apply all initial guesses, including the localized time grid implied by the guessed t0 and T"""
         opti = master.opti if hasattr(master, 'opti') else master
